@@ -271,18 +271,35 @@ impl<'a> IExec<'a> {
 
     // ------------------------------------------------------------ canonical registration (C11)
 
+    /// token codes 100..: addresses that are no token (the all-zero account, the account twin of a
+    /// holder, a holder's own contract address)
+    pub fn nontoken_addr(&self, tok: u8) -> Option<Address> {
+        if tok < 100 {
+            return None;
+        }
+        Some(match (tok - 100) % 3 {
+            0 => crate::host::zero_account(&self.sim.env),
+            1 => crate::host::account_twin(&self.sim.env, &self.h[2]),
+            _ => self.h[3].clone(),
+        })
+    }
+
     pub fn do_register(&mut self, ctx: &mut Ctx, tok: u8, abort: Option<u16>) {
         let env = self.sim.env.clone();
         let t = tok as usize % self.toks.len();
-        let taddr = self.tok_addr[t].clone();
+        let special = self.nontoken_addr(tok);
+        let taddr = special.clone().unwrap_or_else(|| self.tok_addr[t].clone());
         let its = self.its();
         let dsalt = its_canonical_salt(&self.cfg.chain_name, &saddr(&taddr));
         let id = its_token_id(&dsalt);
-        let taken = self.m.registry.contains_key(&id);
+        let taken = self.m.registry.contains_key(&id) || self.m.nontoken.contains_key(&id);
+        if special.is_some() {
+            ctx.count("probe.register_an_address_that_is_no_token_as_canonical");
+        }
         if taken {
             ctx.count("F12.reregister_canonical");
         }
-        if self.toks[t].kind == TokKind::Wasm {
+        if special.is_none() && self.toks[t].kind == TokKind::Wasm {
             ctx.count("probe.register_service_deployed_token_as_canonical");
         }
         ctx.judged(&["C11"], self.state_hash(), "register_canonical", if taken { "already-registered" } else { "accept" });
@@ -306,8 +323,12 @@ impl<'a> IExec<'a> {
         }) {
             return;
         }
-        self.m.registry.insert(id, (t, false));
-        self.m.reg_order.push(id);
+        if special.is_some() {
+            self.m.nontoken.insert(id, tok);
+        } else {
+            self.m.registry.insert(id, (t, false));
+            self.m.reg_order.push(id);
+        }
         let exp = vec![self.ev_its(vec![sym("interchain_token_id_claimed"), sbytes(&id), saddr_zero_account(), sbytes(&dsalt)], svec(vec![]))];
         ctx.check(crate::judge::events_match(&res.events, &exp, &[]), &["C11"], "register/wrong-event", || format!("{:?}", res.events));
     }
